@@ -123,6 +123,9 @@ pub struct CaseInfo {
     pub classes: Vec<(&'static str, u64)>,
     /// executions this case stands for (schedules, fault indices); 0 is counted as 1
     pub evaluations: u64,
+    /// hashes of the distinct non-trivial executions inside this case (combined with the case hash);
+    /// empty = the case itself is the unit
+    pub sub_hashes: Vec<u64>,
 }
 
 #[derive(Clone, Debug)]
@@ -139,6 +142,15 @@ where
     S::Value: Serialize + Clone + std::fmt::Debug,
     F: Fn(&S::Value) -> Result<CaseInfo, CaseFail>,
 {
+    drive_n(ctx, sub, seed, cases, 4000, strategy, out, f)
+}
+
+pub fn drive_n<S, F>(ctx: &Ctx, sub: &str, seed: u64, cases: u32, shrink_iters: u32, strategy: S, out: &mut ShardOut, f: F)
+where
+    S: Strategy,
+    S::Value: Serialize + Clone + std::fmt::Debug,
+    F: Fn(&S::Value) -> Result<CaseInfo, CaseFail>,
+{
     if cases == 0 {
         return;
     }
@@ -146,7 +158,7 @@ where
         cases,
         failure_persistence: None,
         rng_seed: RngSeed::Fixed(seed),
-        max_shrink_iters: 4000,
+        max_shrink_iters: shrink_iters,
         max_global_rejects: 1,
         ..Config::default()
     };
@@ -171,7 +183,10 @@ where
                     }
                     if info.nontrivial {
                         let h = hash_str(&js);
-                        if s.acc.nontrivial.insert(h) && s.acc.samples.len() < 3 {
+                        for sh in info.sub_hashes.iter().take(256) {
+                            s.acc.nontrivial.insert(splitmix(h ^ *sh));
+                        }
+                        if (s.acc.nontrivial.insert(h) || !info.sub_hashes.is_empty()) && s.acc.samples.len() < 3 {
                             let v: Value = serde_json::from_str(&js).unwrap();
                             s.acc.samples.push(serde_json::json!({"sub": sub, "case": v}));
                         }
